@@ -121,7 +121,7 @@ def c_render(fmt, v):
 
 def gen_instance_case(rng):
     uns = sorted(rng.sample([1, 2, 3, 5, 22, 100], rng.randint(1, 3)))
-    text, info = gen_inputs.multi_sim_input(rng, user_numbers=uns, rich=rng.random() < 0.4, with_file=True)
+    text, info = gen_inputs.multi_sim_input(rng, user_numbers=uns, rich=rng.random() < 0.4, with_file=True, print_toggle=True, newline_variants=True)
     extra_un = rng.choice([7, 8, 0])
     sel = {}
     for n in uns + [extra_un]:
@@ -221,6 +221,12 @@ def check_instance_case(ctx, case, ops, res, rc, err, files, mexe, problems):
     for e in events:
         if e["k"] in ("pmsg", "pval") and bool(e["f"]) != self_on.get(e["n"], False):
             bad("stream:fopen", "punch stream of user number %d is %s although its file switch is %s" % (e["n"], "open" if e["f"] else "closed", self_on.get(e["n"], False)), event=e)
+            break
+    # a value that reaches the table must also be offered to the text sinks (punch_on): otherwise the table has rows the string/file/lines lack
+    for e in events:
+        if e["k"] == "pval" and not e["on"]:
+            bad("stream:punch_on", "a value (%s) is pushed into the table of user number %d while the text sinks are switched off (punch_on false although selected output is being punched): "
+                "table rows and string/file/line rows no longer describe the same data" % (e["name"], e["n"]), event=e)
             break
     created = set()
     for e in events:
